@@ -120,6 +120,8 @@ fn make_files(rt: &Runtime) -> Result<Vec<TestFile>, String> {
         ("small128", 35, 2, 10, true),
         ("large64_uncompressed_frames", 31, 4, if thorough { 9000 } else { 7000 }, true),
         ("large128_compressed_frames", 41, 3, if thorough { 16000 } else { 12000 }, false),
+        // one long sample: more than 1 MiB serialised, over 16 frames, most of them stored uncompressed
+        ("huge64_over_16_frames", 31, 1, if thorough { 180_000 } else { 150_000 }, true),
     ];
     let mut out = Vec::new();
     for (name, k, n, rows, inc) in specs {
@@ -158,9 +160,10 @@ fn apply(bytes: &[u8], f: Fault) -> Vec<u8> {
 fn faults_for(f: &TestFile, tier: Tier, seed: u64) -> (Vec<Fault>, bool) {
     let len = f.bytes.len();
     let small = len < 16 * 1024;
+    let huge = len > 1 << 20;
     let mut v: Vec<Fault> = Vec::new();
     let mut exhaustive = true;
-    if small || tier == Tier::Thorough {
+    if small || (tier == Tier::Thorough && !huge) {
         v.extend((0..len).map(Fault::Truncate));
         v.extend((0..len * 8).map(Fault::Flip));
     } else {
@@ -178,7 +181,7 @@ fn faults_for(f: &TestFile, tier: Tier, seed: u64) -> (Vec<Fault>, bool) {
                 }
             }
         }
-        for n in (0..len).step_by(97) {
+        for n in (0..len).step_by(if huge { 9973 } else { 97 }) {
             set.insert(Fault::Truncate(n));
         }
         // every bit of the stream identifier and of every chunk header (type, length, CRC)
@@ -192,7 +195,7 @@ fn faults_for(f: &TestFile, tier: Tier, seed: u64) -> (Vec<Fault>, bool) {
         }
         // seeded data bits
         let mut rng = Rng(seed ^ key_of(&f.name));
-        for _ in 0..20_000 {
+        for _ in 0..(if !huge { 20_000 } else if tier == Tier::Thorough { 120_000 } else { 8_000 }) {
             set.insert(Fault::Flip((rng.next() % (len as u64 * 8)) as usize));
         }
         set.remove(&Fault::Truncate(len));
